@@ -40,7 +40,7 @@ Holds(o) ==
   /\ AxInnerPosDef(o.sp, o.x)
   /\ Len(o.basis) = o.size
   \* equality of spaces
-  /\ \A j \in DOMAIN o.eqs : o.eqs[j].eq = SameSpace(o.sp, o.eqs[j].sp) /\ o.eqs[j].eq_rev = o.eqs[j].eq
+  /\ \A j \in DOMAIN o.eqs : o.eqs[j].eq = SameSpace(o.sp, o.eqs[j].sp) /\ o.eqs[j].eq_rev = o.eqs[j].eq /\ o.eqs[j].ne = ~o.eqs[j].eq   \* != is the negation of ==
 
 \* C10 on the vector-space layer: accumulation never writes into memory it was not handed as the accumulator, and accumulating
 \* into 'nothing' yields memory nobody else holds
